@@ -34,9 +34,13 @@ def _env():
 
 def gen(unit_dir, tmpl_name, backend):
     path = os.path.join(unit_dir, tmpl_name)
+    return gen_text(unit_dir, open(path, encoding="utf-8").read(), backend)
+
+
+def gen_text(unit_dir, text, backend):
     SourceFile._cache.clear()
     try:
-        exp = expand(open(path, encoding="utf-8").read(), backend)
+        exp = expand(text, backend)
     except (LostAnchor, LexError) as e:
         raise Undecided(os.path.basename(unit_dir), "lost anchor: %s" % e)
     except TemplateError as e:
@@ -61,6 +65,40 @@ def _enclosing(exp, text, line):
         if m: return "template fn " + m.group(1)
     return "?"
 
+
+
+def close_over_callees(template_text, stderr):
+    """Closure under same-file callees: when the generated crate does not compile because a name is missing (`cannot find function|value|
+    type|macro X in this scope`), look X up as an item of one of the /repo files the template already extracts from and add a
+    `//@item` directive for it right after the first directive of that file.  Returns (new_text, [added selectors])."""
+    import re as _re
+    from .extract import SourceFile, LostAnchor
+    names = []
+    for m in _re.finditer(r"cannot find (function|value|type|macro|struct, variant or union type|function, tuple struct or tuple variant) `([A-Za-z_][A-Za-z0-9_]*)`", stderr):
+        if m.group(2) not in names: names.append(m.group(2))
+    if not names: return template_text, []
+    lines = template_text.split("\n")
+    files = []
+    for ln in lines:
+        mm = _re.match(r"\s*//@(?:item|fn)\s+(\S+\.rs)\s+::", ln)
+        if mm and mm.group(1) not in files: files.append(mm.group(1))
+    added = []
+    for name in names:
+        for f in files:
+            try: sf = SourceFile.get(f)
+            except LostAnchor: continue
+            hit = [it for it in sf.items if it.name == name and it.kind in ("fn", "const", "static", "struct", "enum", "type", "macro_rules", "trait")]
+            if len(hit) != 1: continue
+            kind = "macro" if hit[0].kind == "macro_rules" else hit[0].kind
+            sel = "%s :: %s %s" % (f, kind, name)
+            if any(sel in l for l in lines): break
+            # insert before the first directive line that extracts from this file
+            for i, ln in enumerate(lines):
+                if _re.match(r"\s*//@(?:item|fn)\s+" + _re.escape(f) + r"\s+::", ln):
+                    lines.insert(i, "//@item " + sel + "   // auto-added: same-file callee")
+                    added.append(sel); break
+            break
+    return "\n".join(lines), added
 
 # --------------------------------------------------------------------------- Verus
 def run_verus(unit_id, unit_dir, tmpl_name, rlimit=None, timeout=600):
@@ -255,7 +293,9 @@ def all_native_bins():
 
 def run_native(unit_id, unit_dir, spec, tier, timeout=None):
     """spec: {"bin":..., "tmpl":..., "floor": {"quick": n, "thorough": n}}"""
-    exp = gen(unit_dir, spec["tmpl"], "native")
+    tmpl_text = open(os.path.join(unit_dir, spec["tmpl"]), encoding="utf-8").read()
+    auto_added = []
+    exp = gen_text(unit_dir, tmpl_text, "native")
     native_setup(all_native_bins())
     f = os.path.join(NATIVE_DIR, "src", "bin", spec["bin"] + ".rs")
     _write_if_changed(f, exp.text)
@@ -265,8 +305,17 @@ def run_native(unit_id, unit_dir, spec, tier, timeout=None):
     sysroot = subprocess.run(["rustc", "+" + NATIVE_TC, "--print", "sysroot"], capture_output=True, text=True).stdout.strip()
     env["LD_LIBRARY_PATH"] = sysroot + "/lib:" + env.get("LD_LIBRARY_PATH", "")
     t0 = time.time()
-    b = subprocess.run(["cargo", "+" + NATIVE_TC, "build", "--release", "--offline", "--bin", spec["bin"]],
-                       cwd=NATIVE_DIR, capture_output=True, text=True, env=env)
+    for _round in range(4):
+        b = subprocess.run(["cargo", "+" + NATIVE_TC, "build", "--release", "--offline", "--bin", spec["bin"]],
+                           cwd=NATIVE_DIR, capture_output=True, text=True, env=env)
+        if b.returncode == 0: break
+        tmpl_text, added = close_over_callees(tmpl_text, b.stderr)
+        if not added: break
+        auto_added += added
+        exp = gen_text(unit_dir, tmpl_text, "native")
+        _write_if_changed(f, exp.text)
+    if auto_added:
+        exp.drops.append("closure under same-file callees: auto-added " + ", ".join(auto_added))
     if b.returncode != 0:
         errs = [l for l in b.stderr.splitlines() if l.startswith("error")]
         raise Undecided(unit_id, "native harness does not compile (non-semantic): " + " | ".join(errs[:4]) + " ... " + b.stderr[-600:])
